@@ -1969,6 +1969,65 @@ def _direct_callers(ctx, callee_pat, exclude=()):
     return sorted(out)
 
 
+def c16_prop_len_check(ctx):
+    q = Q("c16_prop_len_check", ["ServiceInfo::new (window: one pass of the loop over the TXT properties)", "ServiceInfo::new::{closure} (value length + 1)", "TxtProperty::key / TxtProperty::val (by signature)"],
+          "one pass of the validation loop for an arbitrary property: key length and raw value length any usize < 2^62, value present or absent; every path that accepts the property",
+          ["window slice", "TxtProperty::key returns the key string, TxtProperty::val the raw value bytes or None (their signatures)", "is_ascii / contains / format are opaque"])
+    cands = [n for n in ctx.funcs if re.search(r"service_info::<impl at [^>]*>::new$", n) and ctx.funcs[n].ret.startswith("Result<ServiceInfo") or
+             (n.endswith("::new") and "ServiceInfo" in ctx.funcs[n].ret and "Result" in ctx.funcs[n].ret)]
+    cands = sorted(set(cands))
+    if len(cands) != 1:
+        q.unknown.append(f"ServiceInfo::new: {len(cands)} candidates")
+        return q.result()
+    f = ctx.funcs[cands[0]]
+    nxt = None
+    for b, (stmts, t) in f.blocks.items():
+        m = re.match(r"(_\d+) = <std::slice::Iter<'_, (?:service_info::)?TxtProperty> as Iterator>::next\(", t)
+        if m:
+            nxt = m.group(1)
+    start = None
+    if nxt:
+        for b, (stmts, t) in f.blocks.items():
+            if any(re.search(r"\(\(%s as Some\)\.0" % nxt, x) for x in stmts):
+                start = b
+    if not start:
+        q.unknown.append("anchor not found: the loop over the TXT properties in ServiceInfo::new")
+        return q.result()
+    prop, keyo, valo = ("prop", 0), ("keystr", 0), ("valbytes", 0)
+    has_val = z3.BitVec("value_present", 64)
+
+    def m_key(st, args):
+        return Ref(keyo, (), mutable=False)
+
+    def m_val(st, args):
+        return Adt("Option::Some?", [Ref(valo, (), mutable=False)], discr=has_val)
+    ex = Explorer(ctx.funcs, ctx.consts, stop_calls=("TxtProperty> as Iterator>::next",), max_paths=800)
+    ex.call_models = {"TxtProperty::key": m_key, "TxtProperty::val": m_val}
+    paths = ex.explore(f.name, start_block=start, locals_={nxt: Adt("Some", [Ref(prop, (), mutable=False)])},
+                       objs={prop: {}, keyo: {}, valo: {}}, assumptions=[z3.ULE(has_val, z3.BitVecVal(1, 64))])
+    if ex.cut_paths:
+        q.unknown.append("path budget exhausted in the property loop of ServiceInfo::new")
+    n_acc = 0
+    for i, p in enumerate(paths):
+        lk = p.acc.get(("len", keyo, ()))
+        lv = p.acc.get(("len", valo, ()))
+        lkv = lk.e if lk is not None else z3.BitVec("key_len_unread", 64)
+        lvv = lv.e if lv is not None else z3.BitVec("value_len_unread", 64)
+        pre = p.cond + [z3.ULT(lkv, TWO62), z3.ULT(lvv, TWO62)]
+        if p.outcome.startswith("panic"):
+            q.unsat(pre, "length check panics: " + p.outcome[6:40])
+            continue
+        if not p.outcome.startswith("stop:"):
+            continue   # the property was refused (Err) or the function went on
+        n_acc += 1
+        wire = lkv + z3.If(has_val == 1, lvv + 1, z3.BitVecVal(0, 64))
+        q.valid(pre, z3.ULE(wire, 255), f"path {i}: an accepted property fits one TXT string: key + ('=' + raw value bytes, if any) <= 255 bytes")
+        q.witness(pre, f"path {i}: accepted")
+    if n_acc == 0:
+        q.unknown.append("no path accepts a property")
+    return q.result()
+
+
 def c16_first_key_wins(ctx):
     q = Q("c16_first_key_wins", ["service_info::decode_txt_unique", "decode_txt_unique::{closure#0}"],
           "call structure of decode_txt_unique and its retain closure", ["calls are opaque; provenance only"])
@@ -2579,7 +2638,7 @@ SPECS = {
     "C19": [c19_browse_backoff, c19_hostname_backoff, c19_resolve_retry, c19_initial_delay, c19_rerun_due, c19_browse_listener_gone],
     "C08": [c08_tiebreak_count_operands, c08_rename_by_record_kind, c08_answer_uses_resolved_host, c06_additionals_use_resolved_names],
     "C06": [c06_additionals_use_resolved_names, c06_answer_only_when_announced],
-    "C16": [c16_decode_txt_step, c16_first_key_wins],
+    "C16": [c16_decode_txt_step, c16_first_key_wins, c16_prop_len_check],
     "C01": [c01_name_cap_operand],
     "C15": [c01_name_cap_operand, c16_decode_txt_step],
     "C20": [c20_not_for_us_paths, c20_txt_evicted_without_srv, c05_evict_predicate, c12_response_record_timers, c20_purge_loop_step],
